@@ -250,8 +250,9 @@ def layout_die_body(S, fixed, dims, focus, init):
     earlier = {}
 
     def havoc(name, old, loc):
-        d = loc["d"]
-        if name == "coord":
+        """carried variables are told apart by what they hold, not by their names: the coordinate matrix, numbers"""
+        d = loc[dim_var[0]]
+        if isinstance(old, list):
             entry = old[d]
             pre = ghost.pre.get(id(entry))
             S.ensure("die.invariant_holds_at_loop_entry", pre is not None and inv_row(S, entry, span[d - 1], fixed, pre, size[d - 1], initial[d - 1]))
@@ -268,20 +269,21 @@ def layout_die_body(S, fixed, dims, focus, init):
             return new
         if S.mode != "sym":
             return old
-        if name == "dotprod":
-            return S.fresh_real("any_dotprod")
-        if name == "num_iter":
-            v = S.fresh_int("any_iter")
+        if isinstance(old, symx.SymInt) or (isinstance(old, int) and not isinstance(old, bool)):
+            v = S.fresh_int("any_count")
             S.assume(v >= 0)
             return v
-        raise AssertionError(name)
+        if isinstance(old, float):
+            return S.fresh_real("any_number")
+        raise symx.ProxyLeak(f"loop-carried variable {name} of an unexpected kind ({type(old).__name__})")
 
     def restrict(it):
         return [d for d in it if d == focus] if S.mode == "sym" else it
 
-    code, info = loopcut.one_iteration_of_nested_while(sa.spectral_layout_die, lambda c: "num_iter" in c and "dotprod" in c,
-                                                       ["coord", "dotprod", "num_iter"], restrict_for=lambda it: it.replace(" ", "") == "range(1,dim)")
-    S.ensure("die.the_rewrite_found_the_loop_over_the_dimensions_that_holds_the_power_iteration", len(info["restricted"]) == 1)
+    # the power iteration is the only while-loop of the function; its carried variables are found on the AST
+    code, info = loopcut.one_iteration_of_nested_while(sa.spectral_layout_die, lambda c: True, "auto", restrict_for=lambda it: it.startswith("range("))
+    S.ensure("die.the_rewrite_found_the_loop_over_the_dimensions_that_holds_the_power_iteration", len(info["restricted"]) == 1 and len(info["for_targets"]) == 1)
+    dim_var = info["for_targets"]
     S.cover("loop-cut: while " + info["condition"])
     cut = loopcut.instantiate(code, sa.spectral_layout_die, havoc, restrict_fn=restrict)
     ns = cut.__globals__
